@@ -1,9 +1,14 @@
 #![allow(dead_code)]
+mod alloc;
 mod catalog;
 mod pure;
+mod recv_drv;
 mod rfcdec;
 mod sender_drv;
 mod util;
+
+#[global_allocator]
+static GLOBAL: alloc::Counting = alloc::Counting;
 
 fn main() {
     util::install_quiet_panic_hook();
@@ -17,6 +22,8 @@ fn main() {
         "partition" => pure::partition(&args),
         "partition-big" => pure::partition_big(&args),
         "replay-sender" => sender_drv::replay_sender(&args),
+        "sessions" => recv_drv::sessions(&args),
+        "replay-receiver" => recv_drv::replay_receiver(&args),
         c => {
             eprintln!("unknown command {}", c);
             std::process::exit(2);
